@@ -273,6 +273,16 @@ class HSet(object):
         self.arr = arr
 
 
+class HObjList(object):
+    """List of symbolic length whose elements are anonymous objects of one known class
+    (e.g. the exceptions collected by a loop); only the length is tracked."""
+    __slots__ = ('n', 'cls')
+
+    def __init__(self, n, cls):
+        self.n = n
+        self.cls = cls
+
+
 class HInst(object):
     __slots__ = ('cls', 'fields')
 
